@@ -40,7 +40,7 @@ pub trait Runtime: Sync {
     fn after(&self, kind: OpKind, addr: usize, val: usize, ok: bool);
     fn on_alloc(&self, addr: usize, bytes: usize, ty: &'static str);
     /// Returns true when the block must be kept (quarantined) instead of freed
-    fn on_dealloc(&self, addr: usize, bytes: usize) -> bool;
+    fn on_dealloc(&self, addr: usize, bytes: usize, align: usize) -> bool;
 }
 
 thread_local! {
@@ -63,9 +63,9 @@ pub fn on_alloc(addr: usize, bytes: usize, ty: &'static str) {
     }
 }
 
-pub fn on_dealloc(addr: usize, bytes: usize) -> bool {
+pub fn on_dealloc(addr: usize, bytes: usize, align: usize) -> bool {
     match rt() {
-        Some(r) => r.on_dealloc(addr, bytes),
+        Some(r) => r.on_dealloc(addr, bytes, align),
         None => false,
     }
 }
